@@ -77,3 +77,17 @@ void h_pstrtod_any_bytes() {
   OBL(end >= vin_s && end <= vin_s + vin_len, "C18.pstrtod: endptr points into the argument string for any byte string");
   VU_REACHED();
 }
+
+// a long literal (more significant digits than a double holds): still parsed here, never handed to strtod, wholly consumed
+void h_pstrtod_long_literal() {
+  static char s[24];
+  int vin_dot = nondet_int(); __CPROVER_assume(vin_dot >= 0 && vin_dot <= 21);
+  for (int i = 0; i < 22; i++) { char c = nondet_char(); __CPROVER_assume(c >= '0' && c <= '9'); s[i] = (i == vin_dot && vin_dot < 21) ? '.' : c; }
+  s[22] = 0;
+  char *end = 0; g_strtod_called = false;
+  double r = pstrtod(s, &end);
+  OBL(!g_strtod_called, "C18.pstrtod: a literal with more digits than a double holds is still parsed without the locale-dependent strtod");
+  OBL(end == s + 22, "C18.pstrtod: the whole long literal is consumed");
+  OBL(r >= 0.0, "C18.pstrtod: a digit string is never negative");
+  VU_REACHED();
+}
